@@ -194,6 +194,9 @@ type cworld struct {
 }
 
 func (w *cworld) register(p types.TokenPair) {
+	for _, d := range p.Denoms {
+		rt.Assume(d != "") // invariant: a registered denomination passed the metadata validation of its proposal (never empty)
+	}
 	w.pairs = append(w.pairs, p)
 	w.k.SetTokenPair(w.ctx, p)
 	w.k.SetDenomsMap(w.ctx, p.Denoms, p.GetID())
